@@ -104,3 +104,59 @@ def dec_mts(mts):
     coding = z3.If(gmsk, z3.IntVal(0), (code / 2) * 2)
     tsc_set = z3.If(gmsk, code % 4, code % 2)
     return nope, coding, tsc_set, mts % 8
+
+
+MOD_LENS = sorted(set(bl for (_c, bl) in MOD_TABLE.values()))      # 148 296 444 592 740
+CODINGS = sorted(set(c for (c, _bl) in MOD_TABLE.values()))
+
+
+def in_set(x, vals):
+    return z3.Or([x == v for v in vals])
+
+
+def dec(cls, octet, n):
+    """Interpretation of a datagram (octet function, length n) per the layout.
+
+    Returns a dict of z3 terms:
+      accept   - the datagram is structurally acceptable (long enough for its version's header, known version,
+                 and for version-0 Rx a burst part whose length is a modulation's burst length, optionally + 2
+                 legacy padding octets)
+      ver tn fn, pwr | rssi toa256, and for version 1: nope coding tsc_set tsc ci
+      burst_none, blen, bget(i)   - burst part (Tx: hard bits as sent, at most 444 / 148 of them;
+                 Rx: soft bits 127 - octet, octet 255 -> -127)
+    """
+    d = dec_common(octet)
+    ver = d["ver"]
+    if cls == "tx":
+        hlen = z3.IntVal(6)
+        d["pwr"] = octet(5)
+        P = n - hlen
+        # GSM/EDGE length selection: longer payloads are cut to 444, or to 148 when below 444
+        blen = z3.If(P >= 444, z3.IntVal(444), z3.If(P > 148, z3.IntVal(148), P))
+        d["accept"] = z3.And(n >= 5, z3.Or(ver == 0, ver == 1), n >= hlen)
+        d["burst_none"] = P == 0
+        d["blen"] = blen
+        d["bget"] = lambda i: octet(i + 6)
+        d["hlen"] = hlen
+        return d
+    hlen = z3.If(ver == 0, z3.IntVal(8), z3.IntVal(11))
+    d["rssi"] = -octet(5)
+    d["toa256"] = s16_of_u16(octet(6) * 256 + octet(7))
+    mts = octet(8)
+    d["nope"], d["coding"], d["tsc_set"], d["tsc"] = dec_mts(mts)
+    d["ci"] = s16_of_u16(octet(9) * 256 + octet(10))
+    P = n - hlen
+    plain = in_set(P, MOD_LENS)
+    padded = in_set(P - 2, MOD_LENS)
+    d["accept"] = z3.And(n >= 5, z3.Or(ver == 0, ver == 1), n >= hlen,
+                         z3.Or(ver == 1, P == 0, plain, padded))
+    d["burst_none"] = P == 0
+    d["blen"] = z3.If(ver == 0, z3.If(plain, P, P - 2), P)
+    d["v0_mod_bl"] = d["blen"]
+
+    def bget(i):
+        u = octet(i + hlen)
+        return z3.If(u == 255, z3.IntVal(-127), 127 - u)
+    d["bget"] = bget
+    d["hlen"] = hlen
+    return d
